@@ -42,19 +42,21 @@ GEN_MODULES: List[str] = ["C14Types"]
 MANIFEST = {
     "design_ref": "§5 C14",
     "text": ("Lean theorems over the executable tree-level model of server.py's HTTP side composed with the client "
-             "(Props/C14.lean): client_sees_variable and client_sees_definition_partial (for every well-formed variable / "
-             "state table the client's parse of the served SCPD equals the definition: type, evented flag, typed bounds incl. "
-             "one-sided ranges, allowed set, default; the action list and device tree are judged at run time, not proved), "
-             "call_roundtrip (every valid call reaches the handler with the same typed values and returns the handler's typed "
-             "results), handler_error_propagates (same UPnP code), bad_request_never_unhandled / invalid_request_rejected / "
+             "(Props/C14.lean): client_sees_definition (for every constructible service definition the client's parse of "
+             "the served SCPD equals the definition: variables with type, evented flag, typed bounds incl. one-sided ranges, "
+             "allowed set, default; actions with argument names, directions and variable bindings), client_sees_device_tree "
+             "(embedded devices and services, any depth), call_roundtrip (every valid call made with the client's own action "
+             "object reaches the handler with the same typed values and returns the handler's typed results), "
+             "handler_error_propagates (same UPnP code), bad_request_never_unhandled / invalid_request_rejected / "
              "invalid_request_judged (for every request tree and header: SOAP fault or 4xx, never an escaping exception), "
              "gen_types_ok over the generated type table. The model is tied to the code by that table (const.py) and a "
              "differential check of served documents, client model, handler inputs, results and statuses; the Lean judge "
-             "is evaluated on the implementation's observations."),
+             "is evaluated on the implementation's observations; the mocked-request path is cross-checked against a real "
+             "HTTP server on loopback."),
     "note": ("Trusted: Lean kernel + standard axioms; XML text<->tree (ElementTree/expat, escaping), aiohttp routing and "
              "request plumbing, voluptuous, Python int()/float()/datetime are outside the model (sampled by the "
              "correspondence runs; float/date/time codecs enter the model as harness-supplied facts and a round-trip "
-             "hypothesis). Icons, allowedValueRange/step and date/time-typed defaults are not generated."),
+             "hypothesis). Icons, allowedValueRange/step, empty allowed values and ranges / allowed lists on date/time types are not generated."),
     "technique": "Lean 4 proof (structural induction over definitions, argument lists and request trees) + generated table + model/implementation correspondence",
 }
 RULE = ("generated server definitions (1..3 services over a root and up to 2 embedded devices, 0..6 variables of all 26 "
